@@ -483,15 +483,16 @@ func run(t *T) {
 	for i := 0; i < n; i++ {
 		r := t.R.Fork(uint64(i))
 		o := gen.Opts{
-			Categories:   gen.AllCategories(),
-			MinBatches:   1,
-			MaxBatches:   1 + r.Intn(4),
-			MaxEntries:   1 + r.Intn(4),
-			MaxAddenda:   r.Range(-1, 3),
-			Offset:       r.Chance(1, 3),
-			PresetTraces: r.Bool(),
-			FullWidth:    r.Chance(1, 4),
-			NonASCII:     r.Chance(1, 6),
+			IATCorrections: true,
+			Categories:     gen.AllCategories(),
+			MinBatches:     1,
+			MaxBatches:     1 + r.Intn(4),
+			MaxEntries:     1 + r.Intn(4),
+			MaxAddenda:     r.Range(-1, 3),
+			Offset:         r.Chance(1, 3),
+			PresetTraces:   r.Bool(),
+			FullWidth:      r.Chance(1, 4),
+			NonASCII:       r.Chance(1, 6),
 		}
 		if o.MaxAddenda == 0 {
 			o.MaxAddenda = 2
@@ -535,7 +536,7 @@ func runForeignTraces(t *T) {
 	n := t.Budget(300)
 	for i := 0; i < n; i++ {
 		r := t.R.Fork(uint64(700000 + i))
-		o := gen.Opts{MinBatches: 1, MaxBatches: 1 + r.Intn(3), MaxEntries: 1 + r.Intn(3), MaxAddenda: 2}
+		o := gen.Opts{IATCorrections: true, MinBatches: 1, MaxBatches: 1 + r.Intn(3), MaxEntries: 1 + r.Intn(3), MaxAddenda: 2}
 		switch i % 3 {
 		case 0:
 			o.SECs = []string{ach.IAT}
